@@ -84,13 +84,22 @@ pub fn campaign(ctx: &mut Ctx, target: &str, sub: &str, runs: u64, jobs: u32, ju
             .arg(format!("-artifact_prefix={}/", arts.display()))
             .env("RUST_BACKTRACE", "0")
             .stdin(Stdio::null())
-            .stdout(Stdio::null())
-            .stderr(Stdio::piped());
+            .stdout(Stdio::null());
+        // stderr goes to a file: a pipe would fill up and serialise the jobs
+        let log_path = scratch.join(format!("log-{j}.txt"));
+        match std::fs::File::create(&log_path) {
+            Ok(f) => {
+                cmd.stderr(Stdio::from(f));
+            }
+            Err(_) => {
+                cmd.stderr(Stdio::null());
+            }
+        }
         if let Some(d) = &dict {
             cmd.arg(format!("-dict={}", d.display()));
         }
         match cmd.spawn() {
-            Ok(c) => children.push((j, c, corpus, arts)),
+            Ok(c) => children.push((j, c, corpus, arts, log_path)),
             Err(e) => ctx.inconclusive(format!("cannot start fuzz target {target}: {e}")),
         }
     }
@@ -98,15 +107,16 @@ pub fn campaign(ctx: &mut Ctx, target: &str, sub: &str, runs: u64, jobs: u32, ju
     let mut corpus_units = 0u64;
     let mut artifacts = 0u64;
     let mut confirmed = 0u64;
-    for (j, child, corpus, arts) in children {
-        let out = match child.wait_with_output() {
+    for (j, mut child, corpus, arts, log_path) in children {
+        let out = match child.wait() {
             Ok(o) => o,
             Err(e) => {
                 ctx.inconclusive(format!("fuzz job {j} of {target}: {e}"));
                 continue;
             }
         };
-        let log = String::from_utf8_lossy(&out.stderr);
+        let log_bytes = std::fs::read(&log_path).unwrap_or_default();
+        let log = String::from_utf8_lossy(&log_bytes);
         for line in log.lines() {
             if let Some(v) = line.strip_prefix("stat::number_of_executed_units:") {
                 execs += v.trim().parse::<u64>().unwrap_or(0);
@@ -141,8 +151,8 @@ pub fn campaign(ctx: &mut Ctx, target: &str, sub: &str, runs: u64, jobs: u32, ju
                 }
             }
         }
-        if !out.status.success() && std::fs::read_dir(&arts).map(|r| r.count()).unwrap_or(0) == 0 {
-            ctx.inconclusive(format!("fuzz job {j} of {target} exited with {:?} without an artifact: {}", out.status.code(), log.lines().rev().take(3).collect::<Vec<_>>().join(" | ")));
+        if !out.success() && std::fs::read_dir(&arts).map(|r| r.count()).unwrap_or(0) == 0 {
+            ctx.inconclusive(format!("fuzz job {j} of {target} exited with {:?} without an artifact: {}", out.code(), log.lines().rev().take(3).collect::<Vec<_>>().join(" | ")));
         }
     }
     ctx.cls.evals(execs);
